@@ -92,6 +92,9 @@ pub fn run(args: &[String]) -> Value {
     let threads: usize = args.get(4).and_then(|s| s.parse().ok()).unwrap_or(8);
     // sample mode: the last frame is enumerated exhaustively when it is at most this many bytes long
     let last_cap: usize = args.get(5).and_then(|s| s.parse().ok()).unwrap_or(6000);
+    // a valid .skf with OTHER content, placed next to every damaged copy under the damaged copy's name + ".skf" (the damaged
+    // copies themselves carry no extension): a loader must never answer with a neighbouring file
+    let decoy: Option<Vec<u8>> = args.get(6).filter(|s| !s.is_empty()).map(|p| std::fs::read(p).expect("read decoy skf"));
     let data = std::fs::read(file).expect("read skf");
     let regions = classify(&data);
     let pristine = {
@@ -181,8 +184,16 @@ pub fn run(args: &[String]) -> Value {
         let results = Arc::clone(&results);
         let data = data.clone();
         let orig = orig.clone();
-        let tmp = format!("{}/skav-fault-{}-{}.skf", dir, std::process::id(), t);
+        let tmp = if decoy.is_some() {
+            format!("{}/skav-fault-{}-{}", dir, std::process::id(), t)
+        } else {
+            format!("{}/skav-fault-{}-{}.skf", dir, std::process::id(), t)
+        };
+        let decoy = decoy.clone();
         handles.push(std::thread::spawn(move || {
+            if let Some(d) = &decoy {
+                std::fs::write(format!("{}.skf", tmp), d).expect("write decoy");
+            }
             let lo = t * chunk;
             let hi = usize::min(lo + chunk, faults.len());
             let mut local = Vec::new();
@@ -200,6 +211,9 @@ pub fn run(args: &[String]) -> Value {
                 local.push((idx, o, why));
             }
             let _ = std::fs::remove_file(&tmp);
+            if decoy.is_some() {
+                let _ = std::fs::remove_file(format!("{}.skf", tmp));
+            }
             results.lock().unwrap().extend(local);
         }));
     }
